@@ -139,6 +139,9 @@ type Cfg struct {
 	// Settle: after every op call Index.Compact()+Wait() until no partition needs compaction (needed for
 	// determinism whenever MaxLog is small enough for ops to trigger background compactions).
 	Settle bool `json:"settle"`
+	// NoCache: tsi1.WithSeriesIDCacheSize(0) (the documented series-id-set-cache-size = 0 configuration): the Index keeps
+	// no tag-value series-id cache, every TagValueSeriesIDIterator call is answered from the partitions' file sets.
+	NoCache bool `json:"no_cache,omitempty"`
 }
 
 type OpResult struct {
@@ -189,6 +192,9 @@ func (w *World) openIndex() error {
 		pn = 1
 	}
 	opts = append(opts, func(i *tsi1.Index) { i.PartitionN = uint64(pn) })
+	if w.Cfg.NoCache {
+		opts = append(opts, tsi1.WithSeriesIDCacheSize(0))
+	}
 	w.Idx = tsi1.NewIndex(w.SF, "db0", opts...)
 	if err := w.Idx.Open(); err != nil {
 		w.Idx = nil
@@ -471,11 +477,15 @@ type View struct {
 	MSeries map[string][]string // MeasurementSeriesIDIterator(m)       -> series names
 	KSeries map[string][]string // TagKeySeriesIDIterator(m,k)
 	VSeries map[string][]string // TagValueSeriesIDIterator(m,k,v)
+	// VCold: the same series set read from the partitions' file sets directly (Partition.TagValueSeriesIDIterator merged
+	// over the partitions = what Index.TagValueSeriesIDIterator computes when its tag-value cache has no entry for (m,k,v)),
+	// ids the series file reports as deleted removed as tsdb.IndexSet does.
+	VCold map[string][]string
 }
 
 func newView() *View {
 	return &View{Exists: map[string]bool{}, Keys: map[string][]string{}, HasKey: map[string]bool{}, Values: map[string][]string{}, HasVal: map[string]bool{},
-		MSeries: map[string][]string{}, KSeries: map[string][]string{}, VSeries: map[string][]string{}}
+		MSeries: map[string][]string{}, KSeries: map[string][]string{}, VSeries: map[string][]string{}, VCold: map[string][]string{}}
 }
 
 // Expected builds the view of a set of live series (the statement's right-hand side).
@@ -497,6 +507,7 @@ func Expected(live [6]bool) *View {
 			v.KSeries[m+"/"+k] = nil
 			for _, val := range TagValues {
 				v.VSeries[m+"/"+k+"/"+val] = nil
+				v.VCold[m+"/"+k+"/"+val] = nil
 			}
 		}
 	}
@@ -516,6 +527,7 @@ func Expected(live [6]bool) *View {
 			v.HasVal[mk+"/"+t[1]] = true
 			v.KSeries[mk] = add(v.KSeries[mk], sn)
 			v.VSeries[mk+"/"+t[1]] = add(v.VSeries[mk+"/"+t[1]], sn)
+			v.VCold[mk+"/"+t[1]] = add(v.VCold[mk+"/"+t[1]], sn)
 		}
 	}
 	v.sortAll()
@@ -524,7 +536,7 @@ func Expected(live [6]bool) *View {
 
 func (v *View) sortAll() {
 	sort.Strings(v.Names)
-	for _, mp := range []map[string][]string{v.Keys, v.Values, v.MSeries, v.KSeries, v.VSeries} {
+	for _, mp := range []map[string][]string{v.Keys, v.Values, v.MSeries, v.KSeries, v.VSeries, v.VCold} {
 		for k := range mp {
 			sort.Strings(mp[k])
 		}
@@ -687,11 +699,46 @@ func ReadIndex(w *World, n *IDNames, raw bool) (*View, error) {
 				if err != nil {
 					return nil, fmt.Errorf("TagValueSeriesIDIterator: %w", err)
 				}
+				if v.VCold[mk+"/"+val], err = coldTagValueSeries(w, n, mb, kb, vb, raw); err != nil {
+					return nil, fmt.Errorf("Partition.TagValueSeriesIDIterator: %w", err)
+				}
 			}
 		}
 	}
 	v.sortAll()
 	return v, nil
+}
+
+// coldTagValueSeries reads the series set of one tag value from the file set of every partition
+// (Partition.TagValueSeriesIDIterator -> FileSet.TagValueSeriesIDIterator), bypassing the Index's tag-value
+// series-id cache; ids the series file reports as deleted are dropped (as tsdb.IndexSet does) unless raw.
+func coldTagValueSeries(w *World, n *IDNames, name, key, value []byte, raw bool) ([]string, error) {
+	var out []string
+	for i := 0; i < w.partN(); i++ {
+		itr, err := w.Idx.PartitionAt(i).TagValueSeriesIDIterator(name, key, value)
+		if err != nil {
+			return nil, err
+		}
+		if itr == nil {
+			continue
+		}
+		for {
+			e, err := itr.Next()
+			if err != nil {
+				itr.Close()
+				return nil, err
+			}
+			if e.SeriesID == 0 {
+				break
+			}
+			if !raw && w.SF.IsDeleted(e.SeriesID) {
+				continue
+			}
+			out = append(out, n.of(e.SeriesID))
+		}
+		itr.Close()
+	}
+	return out, nil
 }
 
 // Fail is one broken clause.
@@ -783,11 +830,15 @@ func CompareBounds(got, lo, hi *View) (fails []*Fail) {
 			for _, v := range TagValues {
 				cmpBool("tag-values", "HasTagValue", m, m+","+k+","+v, got.HasVal[mk+"/"+v], want.HasVal[mk+"/"+v])
 				cmpList("series-set", "TagValueSeriesIDIterator", m, m+","+k+","+v, got.VSeries[mk+"/"+v], want.VSeries[mk+"/"+v])
+				cmpList("series-set", coldQuery, m, m+","+k+","+v, got.VCold[mk+"/"+v], want.VCold[mk+"/"+v])
 			}
 		}
 	}
 	return fails
 }
+
+// coldQuery names the cache-bypassing read of a tag value's series set in the reports.
+const coldQuery = "TagValueSeriesIDIterator[partition file sets, tag-value cache bypassed]"
 
 // pick / pickBool return the answer a view gives to a query (arg as printed by CompareBounds: "m", "m,k", "m,k,v").
 func pick(v *View, query, arg string) []string {
@@ -805,6 +856,8 @@ func pick(v *View, query, arg string) []string {
 		return v.Values[key]
 	case "TagValueSeriesIDIterator":
 		return v.VSeries[key]
+	case coldQuery:
+		return v.VCold[key]
 	}
 	panic("pick: unknown query " + query)
 }
@@ -1022,6 +1075,9 @@ type runResult struct {
 	Steps    int64
 	Model    *Model
 	Final    *View
+	// ReaddCompacted: (explicit configurations) some log file that holds the tombstone AND the later re-creation of one
+	// series id (index-only drop, same id back) was compacted into an index file during the history.
+	ReaddCompacted bool
 }
 
 func layout(w *World) string {
@@ -1098,6 +1154,9 @@ func runCase(base string, cs Case) (rr runResult) {
 	reopened := false
 	var w *World
 	step := 0
+	// bookkeeping for the outcome classes of the explicit configurations (the active log file changes only at compact ops)
+	logEpoch, readdPending := 0, false
+	dropEpoch := [6]int{-1, -1, -1, -1, -1, -1}
 	p, desc := vlib.Guard(func() {
 		_, w, err = PerformHistory(dir, cs.Cfg, cs.Ops, nil, func(st int, op Op, res OpResult, w *World) bool {
 			step = st
@@ -1129,6 +1188,25 @@ func runCase(base string, cs Case) (rr runResult) {
 				}
 				if re {
 					oc += ":re-add-same-id"
+				}
+			}
+			if cs.Cfg.MaxLog == 0 {
+				for s := range m.Live {
+					switch {
+					case before.Live[s] && !m.Live[s]:
+						dropEpoch[s] = logEpoch
+					case op.Kind == OpCreate && !before.Live[s] && m.Live[s] && before.Shared[s] && dropEpoch[s] == logEpoch:
+						readdPending = true
+						oc += "-in-log-of-drop"
+					}
+				}
+				if op.Kind == OpCompact {
+					if readdPending {
+						oc += ":log-with-drop+re-add-of-one-id"
+						rr.ReaddCompacted = true
+					}
+					logEpoch++
+					readdPending = false
 				}
 			}
 			rr.Outcomes = append(rr.Outcomes, oc)
@@ -1937,12 +2015,49 @@ func CoreAlphabet(withCompact bool) []Op {
 	return a
 }
 
+// CfgCold: explicit (files change only at compact ops) with the Index's tag-value series-id cache disabled, so that
+// Index/IndexSet.TagValueSeriesIDIterator are answered from the file sets at every step (with the cache, a set cached
+// before a compaction is kept up to date by the write path and hides what the files say until the next restart).
+var CfgCold = Cfg{Name: "explicit-nocache", MaxLog: 0, PartN: 1, NoCache: true}
+
+// ReaddAlphabet: the life of ONE series id inside and across log files. S0 (m0,a=x) is created, dropped index-only
+// (its series-file entry stays, so a re-creation gets the SAME id back and the active log file sees add / tombstone /
+// re-add entries of one id) and re-created; S2 (m0,a=x,b=x: shares the tag value a=x with S0) is "another series
+// created afterwards" that puts entries into the log file that is active at that point (and keeps a=x populated);
+// compact turns the active log file into an index file (which from then on is not the newest file of the file set);
+// reopen replays the active log file. wide adds the index-only drop of S2.
+func ReaddAlphabet(wide bool) []Op {
+	a := []Op{
+		{Kind: OpCreate, S: []int{0}}, {Kind: OpDropI, S: []int{0}}, {Kind: OpCreate, S: []int{2}},
+		{Kind: OpCompact}, {Kind: OpReopen},
+	}
+	if wide {
+		a = append(a, Op{Kind: OpDropI, S: []int{2}})
+	}
+	return a
+}
+
 type family struct {
 	name     string
 	cfg      Cfg
 	alphabet []Op
 	minLen   int
 	maxLen   int
+	// noRepeat: sequences in which an op is immediately followed by the same op are skipped
+	noRepeat bool
+}
+
+// readd: the family enumerates only sequences of its maximal length; every shorter sequence is a prefix of one and is
+// judged after each of its steps (restart included: reopen is in the alphabet).
+func (f family) readd() bool { return strings.HasPrefix(f.name, "shared-readd") }
+
+func hasRepeat(ops []Op) bool {
+	for i := 1; i < len(ops); i++ {
+		if ops[i].String() == ops[i-1].String() {
+			return true
+		}
+	}
+	return false
 }
 
 func (f family) probe() string {
@@ -1968,31 +2083,40 @@ func families(thorough bool) []family {
 		return nil
 	}
 	if d := envInt("C14_DEPTH", -1); d >= 0 {
-		return []family{{"explicit", CfgExplicit, FullAlphabet(true), 0, d}, {"auto", CfgAuto, FullAlphabet(false), 0, d}, {"mid", CfgMid, FullAlphabet(false), 0, d},
-			{"shared-explicit", CfgExplicit, SharedAlphabet(true), 0, d}, {"shared-auto", CfgAuto, SharedAlphabet(false), 0, d}}
+		return []family{{"explicit", CfgExplicit, FullAlphabet(true), 0, d, false}, {"auto", CfgAuto, FullAlphabet(false), 0, d, false}, {"mid", CfgMid, FullAlphabet(false), 0, d, false},
+			{"shared-explicit", CfgExplicit, SharedAlphabet(true), 0, d, false}, {"shared-auto", CfgAuto, SharedAlphabet(false), 0, d, false}}
+	}
+	readd := family{"shared-readd", CfgCold, ReaddAlphabet(false), 4, 4, true}
+	if d := envInt("C14_READD_DEPTH", -1); d >= 0 { // development aid
+		readd.minLen, readd.maxLen = d, d
 	}
 	if !thorough {
 		return []family{
-			{"explicit", CfgExplicit, FullAlphabet(true), 0, 2},
-			{"auto", CfgAuto, FullAlphabet(false), 0, 2},
-			{"mid", CfgMid, FullAlphabet(false), 0, 2},
-			{"shared-explicit", CfgExplicit, SharedAlphabet(true), 0, 3},
-			{"shared-auto", CfgAuto, SharedAlphabet(false), 0, 2},
-			{"explicit-core", CfgExplicit, CoreAlphabet(true), 3, 3},
+			readd, // the smallest alphabet (5 ops over one measurement) goes first
+			{"explicit", CfgExplicit, FullAlphabet(true), 0, 2, false},
+			{"auto", CfgAuto, FullAlphabet(false), 0, 2, false},
+			{"mid", CfgMid, FullAlphabet(false), 0, 2, false},
+			{"shared-explicit", CfgExplicit, SharedAlphabet(true), 0, 3, false},
+			{"shared-auto", CfgAuto, SharedAlphabet(false), 0, 2, false},
+			{"explicit-core", CfgExplicit, CoreAlphabet(true), 3, 3, false},
+			{"shared-readd", CfgCold, ReaddAlphabet(false), 5, 5, true}, // with the budget that is left
 		}
 	}
 	return []family{
-		{"explicit", CfgExplicit, FullAlphabet(true), 0, 3},
-		{"auto", CfgAuto, FullAlphabet(false), 0, 3},
-		{"mid", CfgMid, FullAlphabet(false), 0, 3},
-		{"shared-explicit", CfgExplicit, SharedAlphabet(true), 0, 4},
-		{"shared-auto", CfgAuto, SharedAlphabet(false), 0, 4},
-		{"explicit-core", CfgExplicit, CoreAlphabet(true), 4, 4},
-		{"auto-core", CfgAuto, CoreAlphabet(false), 4, 4},
-		{"mid-core", CfgMid, CoreAlphabet(false), 4, 4},
-		{"explicit", CfgExplicit, FullAlphabet(true), 4, 4},
-		{"shared-explicit", CfgExplicit, SharedAlphabet(true), 5, 5},
-		{"explicit-core", CfgExplicit, CoreAlphabet(true), 5, 5},
+		readd,
+		{"shared-readd-wide", CfgCold, ReaddAlphabet(true), 5, 5, true}, // first of the sequential families after the schedule and crash parts
+		{"explicit", CfgExplicit, FullAlphabet(true), 0, 3, false},
+		{"auto", CfgAuto, FullAlphabet(false), 0, 3, false},
+		{"mid", CfgMid, FullAlphabet(false), 0, 3, false},
+		{"shared-explicit", CfgExplicit, SharedAlphabet(true), 0, 4, false},
+		{"shared-auto", CfgAuto, SharedAlphabet(false), 0, 4, false},
+		{"explicit-core", CfgExplicit, CoreAlphabet(true), 4, 4, false},
+		{"auto-core", CfgAuto, CoreAlphabet(false), 4, 4, false},
+		{"mid-core", CfgMid, CoreAlphabet(false), 4, 4, false},
+		{"shared-readd-deep", CfgCold, ReaddAlphabet(false), 6, 6, true},
+		{"explicit", CfgExplicit, FullAlphabet(true), 4, 4, false},
+		{"shared-explicit", CfgExplicit, SharedAlphabet(true), 5, 5, false},
+		{"explicit-core", CfgExplicit, CoreAlphabet(true), 5, 5, false},
 	}
 }
 
@@ -2907,12 +3031,13 @@ func TestCheck(t *testing.T) {
 		ID: "C14", Level: "model_checking", QuickBudgetS: 70, ThoroughBudgetS: 820, WorkerEnv: []string{"GOMAXPROCS=1"},
 		Rule: "every op sequence within the stated length bounds, each executed from scratch on a real tsi1.Index on a real tsdb.SeriesFile in a fresh directory, over a universe of 6 series (S0 m0,a=x; S1 m0,a=y; S2 m0,a=x,b=x; S3 m0,b=y; S4 m1,a=x; S5 m1,a=y,b=x: 2 measurements x 2 tag keys x 2 values; S2 is the only holder of m0.b=x). " +
 			"Ops: create{S0},{S2},{S4},{S0..S3},{S0..S5} (Index.CreateSeriesListIfNotExists); dropS S0|S2|S4 = the engine's series delete in a single-shard database (Index.DropSeries(id,key,false), DropMeasurementIfSeriesNotExist, SeriesFile.DeleteSeriesID); dropM m0 = the engine's measurement delete (the same for every series of m0); dropMd m0|m1 = Index.DropMeasurement called directly, then the series ids deleted from the series file; reopen = Index.Close, SeriesFile.Close, SeriesFile.Open, Index.Open; compact = forced log compaction at the step boundary (log threshold 1 on every partition, Index.Compact()+Wait() until no partition needs compaction: log -> L1, L1+L1 -> L2, ..., threshold restored). " +
-			"Configurations: explicit (default 1 MiB log threshold, 1 partition: files change only at compact ops), auto (threshold 1, 1 partition: every op's log file is rolled and compacted at once, awaited after every Index call), mid (threshold 40 bytes, 2 partitions: rolls after ~3 entries, awaited). " +
-			"Families in visiting order — quick: explicit full 13-op alphabet length <=2; auto and mid (12 ops, no explicit compact) <=2; shared-explicit <=3 and shared-auto <=2 over {create{S0},{S0..S3}, dropI S0|S2|{S0..S3} = the engine's series delete when another shard still holds the series (no SeriesFile.DeleteSeriesID, a re-creation gets the same id), reopen, compact}; explicit-core length exactly 3 over the 8-op m0-only alphabet {create{S0},{S2},{S0..S3}, dropS S2, dropM m0, dropMd m0, reopen, compact}. Thorough: explicit/auto/mid full <=3, shared-explicit <=4, shared-auto <=4, explicit/auto/mid core =4, explicit full =4, shared-explicit =5, explicit-core =5. " +
-			"After EVERY op, after a final restart, and after each of three probe ops on the restarted index (create all 6 series; engine delete of m0; of m1 — index-only drops in the shared families) every metadata query is compared with the view of the model's live series: MeasurementIterator, MeasurementExists(m); TagKeyIterator(m), HasTagKey(m,k); TagValueIterator(m,k), HasTagValue(m,k,v) on the Index; MeasurementSeriesIDIterator(m), TagKeySeriesIDIterator(m,k), TagValueSeriesIDIterator(m,k,v) through tsdb.IndexSet{index, series file} (ids mapped back to series) for both measurements, both keys, both values (also for measurements/keys/values that no longer exist: expected empty/false). A history is executed to its end; every distinct violation class it shows is recorded. " +
-			"State = model state (per series live / dropped-but-still-in-series-file / absent) + file layout per partition (log empty/non-empty, index file levels); transition = one executed op; trace = one complete history validated on the implementation. Non-trivial = histories containing a create (distinct by construction), executions with >= 1 preemption. " +
+			"Configurations: explicit (default 1 MiB log threshold, 1 partition: files change only at compact ops), auto (threshold 1, 1 partition: every op's log file is rolled and compacted at once, awaited after every Index call), mid (threshold 40 bytes, 2 partitions: rolls after ~3 entries, awaited), explicit-nocache (explicit with tsi1.WithSeriesIDCacheSize(0): the Index keeps no tag-value series-id cache, so every TagValueSeriesIDIterator is answered from the file sets). " +
+			"RE-ADD FAMILY shared-readd (explicit-nocache; its length-4 part runs FIRST of all parts in both tiers, before the small schedule part and the crash family: 20 histories per worker): the life of one series id inside and across log files — alphabet {create{S0}, dropI S0 (index-only drop: the series-file entry stays, a re-creation gets the SAME id back, so one log file sees add / tombstone / re-add entries of one id), create{S2} (another series, sharing the tag value a=x with S0, created afterwards), compact (the active log file becomes an index file, which from then on is not the newest file of the file set), reopen}; every sequence of length EXACTLY 4 in which no op is immediately followed by itself (320 sequences; every shorter sequence is a prefix of one and is judged after each of its steps, its restart is the reopen op). Quick, with the budget left after all other families: the same for length exactly 5 (1280). Thorough: length 4 first of all; shared-readd-wide = the alphabet plus dropI S2, length exactly 5 (3750), the first sequential family after the small schedule part and the crash family; shared-readd-deep = the 5-op alphabet at length exactly 6 (5120: two compactions around a re-add, i.e. the re-add log file as the older input of a level compaction), after the core families of length 4. A violation seen after a step is recorded with the prefix up to that step as its case. " +
+			"Other families in visiting order — quick: explicit full 13-op alphabet length <=2; auto and mid (12 ops, no explicit compact) <=2; shared-explicit <=3 and shared-auto <=2 over {create{S0},{S0..S3}, dropI S0|S2|{S0..S3} = the engine's series delete when another shard still holds the series (no SeriesFile.DeleteSeriesID, a re-creation gets the same id), reopen, compact}; explicit-core length exactly 3 over the 8-op m0-only alphabet {create{S0},{S2},{S0..S3}, dropS S2, dropM m0, dropMd m0, reopen, compact}. Thorough: explicit/auto/mid full <=3, shared-explicit <=4, shared-auto <=4, explicit/auto/mid core =4, explicit full =4, shared-explicit =5, explicit-core =5. " +
+			"After EVERY op, after a final restart, and after each of three probe ops on the restarted index (create all 6 series; engine delete of m0; of m1 — index-only drops in the shared families) every metadata query is compared with the view of the model's live series: MeasurementIterator, MeasurementExists(m); TagKeyIterator(m), HasTagKey(m,k); TagValueIterator(m,k), HasTagValue(m,k,v) on the Index; MeasurementSeriesIDIterator(m), TagKeySeriesIDIterator(m,k), TagValueSeriesIDIterator(m,k,v) through tsdb.IndexSet{index, series file} (ids mapped back to series) for both measurements, both keys, both values (also for measurements/keys/values that no longer exist: expected empty/false); and for every (m,k,v) the same series set read with the tag-value cache BYPASSED: Partition.TagValueSeriesIDIterator(m,k,v) of every partition (= FileSet.TagValueSeriesIDIterator, what the Index computes on a cache miss), ids the series file reports as deleted removed, must equal the live series having k=v — in every family, every configuration, the schedule parts and the crash family. A history is executed to its end; every distinct violation class it shows is recorded. " +
+			"State = model state (per series live / dropped-but-still-in-series-file / absent) + file layout per partition (log empty/non-empty, index file levels); transition = one executed op; trace = one complete history validated on the implementation. Non-trivial = histories containing a create (distinct by construction), executions with >= 1 preemption; in the shared-readd families only histories in which a log file holding the tombstone AND the later re-creation of one series id is compacted (outcome class compact:log-with-drop+re-add-of-one-id; 1 of the 320 sequences of length 4, 16 of length 5). " +
 			"SCHEDULE PART (thorough tier only, with the wall budget the sequential families leave; the evidence names the phase it stopped in): log threshold 1, 1 partition, nothing awaited between calls; initial index content in {empty, create{S0..S3}, create{S0..S3}+dropS S2} (fully compacted), ONE writer thread running every program of length 1 (then 2) over {create{S0},{S2},{S0..S3}, dropS S2, dropM m0} against the partition's own goroutines (checkLogFile -> go Compact -> go compactLogFile / compactToLevel, manifest swap, file removal), which are started by the writer's calls; phases: every schedule with 0 preemptions (all orders of goroutines at blocking points), then <= 1 preemption for length 1, then <= 1 for length 2, at every Lock/RLock of tsi1/partition.go and tsi1/log_file.go (vsched: baton passing inside a synctest bubble; atomics/Once pass silently). When the writer has finished, all compactions are awaited and every query is compared with the writer's model; then restart + probe as above. A class seen only under a schedule other than the preemption-free one is reported as schedule-dependent/<class>; deadlock and step-cap are violations. For the schedule part states = decision nodes of the schedule trees, transitions = scheduling steps, traces = executions. " +
-			"SMALL SCHEDULE PART (engine vsched; BOTH tiers, runs first, limited to 20 s quick / 100 s thorough of wall time; its decision nodes / scheduling steps / executions are added to states / transitions / traces and reported separately as sched_small_states / sched_small_transitions / sched_small_traces, per scenario as sched_small_traces_scenario_<i>): 1 partition, index opened with the default log threshold, the initial create stays in the active log file L0-1; then the partition's log threshold is lowered to 1 so that the non-empty log file is DUE for retirement (the state of a log file older than maxLogFileAge; every log file the writer fills becomes due as well, so its own CheckLogFile rolls it and starts go Compact -> go compactLogFile -> manifest swap -> log-file removal -> follow-up Compact / level compaction, all in the partition's own goroutines under the scheduler). Threads: ONE writer creating 1-2 series batches through Index.CreateSeriesListIfNotExists, against either the partition's periodic-compaction tick (the ticker case of Partition.runPeriodicCompaction: if NeedsCompaction(true) { Compact() }) or a second writer creating one batch. Quick scenarios: init create{S0}: writer [create{S1}] || tick, <= 2 preemptions; writer [create{S1}] || writer2 [create{S4}], <= 1 preemption; writer [create{S4}] || tick, <= 1 preemption; writer [create{S2}, create{S3}] || tick, <= 2 deviations from the default schedule (every non-default choice costs 1) (about 1.1 k executions in all). Thorough (9 scenarios, about 9.5 k executions): the tick scenarios with <= 3 preemptions, two writers <= 2, inits create{S0..S3} / create{S4} / empty with <= 2 preemptions, writer [create{S2}, create{S3}] || tick with <= 3 deviations from the default schedule (every non-default choice costs 1), writer [create{S0}, create{S1}] on an empty log || tick and three batches over two writers with <= 2 deviations. Decision points: every write Lock of Partition.mu and LogFile.mu, the RLocks of the writer's path (RetainFileSet, createSeriesListIfNotExists, CheckLogFile), of the compaction's log-file read (LogFile.CompactTo) and of NeedsCompaction, and the threads' call boundaries; other RLocks pass silently (but block while the lock is write-held). When the harness threads have finished the scheduler is drained, ALL compactions are awaited (threshold 1: every log file is compacted, then the levels) and every metadata query is compared with the view of the acknowledged creates (set union); then Index and series file are restarted (compactions awaited) and every query is compared again. Every class seen here is reported as schedule-dependent/<class> (the writers only create: nothing is stale by design); deadlock and step cap are violations (sched-small/...). " +
+			"SMALL SCHEDULE PART (engine vsched; BOTH tiers, runs right after the re-add family of length 4, limited to 20 s quick / 100 s thorough of wall time; its decision nodes / scheduling steps / executions are added to states / transitions / traces and reported separately as sched_small_states / sched_small_transitions / sched_small_traces, per scenario as sched_small_traces_scenario_<i>): 1 partition, index opened with the default log threshold, the initial create stays in the active log file L0-1; then the partition's log threshold is lowered to 1 so that the non-empty log file is DUE for retirement (the state of a log file older than maxLogFileAge; every log file the writer fills becomes due as well, so its own CheckLogFile rolls it and starts go Compact -> go compactLogFile -> manifest swap -> log-file removal -> follow-up Compact / level compaction, all in the partition's own goroutines under the scheduler). Threads: ONE writer creating 1-2 series batches through Index.CreateSeriesListIfNotExists, against either the partition's periodic-compaction tick (the ticker case of Partition.runPeriodicCompaction: if NeedsCompaction(true) { Compact() }) or a second writer creating one batch. Quick scenarios: init create{S0}: writer [create{S1}] || tick, <= 2 preemptions; writer [create{S1}] || writer2 [create{S4}], <= 1 preemption; writer [create{S4}] || tick, <= 1 preemption; writer [create{S2}, create{S3}] || tick, <= 2 deviations from the default schedule (every non-default choice costs 1) (about 1.1 k executions in all). Thorough (9 scenarios, about 9.5 k executions): the tick scenarios with <= 3 preemptions, two writers <= 2, inits create{S0..S3} / create{S4} / empty with <= 2 preemptions, writer [create{S2}, create{S3}] || tick with <= 3 deviations from the default schedule (every non-default choice costs 1), writer [create{S0}, create{S1}] on an empty log || tick and three batches over two writers with <= 2 deviations. Decision points: every write Lock of Partition.mu and LogFile.mu, the RLocks of the writer's path (RetainFileSet, createSeriesListIfNotExists, CheckLogFile), of the compaction's log-file read (LogFile.CompactTo) and of NeedsCompaction, and the threads' call boundaries; other RLocks pass silently (but block while the lock is write-held). When the harness threads have finished the scheduler is drained, ALL compactions are awaited (threshold 1: every log file is compacted, then the levels) and every metadata query is compared with the view of the acknowledged creates (set union); then Index and series file are restarted (compactions awaited) and every query is compared again. Every class seen here is reported as schedule-dependent/<class> (the writers only create: nothing is stale by design); deadlock and step cap are violations (sched-small/...). " +
 			"CRASH FAMILY (additional clause, engine crashfs; counted under the crash_* coverage keys and the crash:* outcomes, not under states/transitions/traces; limited to 30 s quick / 390 s thorough of wall time): histories performed by a writer subprocess (PerformHistory on the real Index + series file, GOMAXPROCS=1) under strace with BEGIN/ACK markers around the initial open of the empty directory and every op; the process exits without closing. Quick: 4 hand-picked histories, every cut (log-appends [create{S0..S3}, dropS S2, create{S4}, dropM m0, create{S0}] with the default log threshold, plus the initial open; shared [create{S0..S3}, dropI S0, reopen, create{S0}, dropI{S0..S3}]; compact [create{S0..S5}, compact (log -> L1 .tsi written and synced, manifest tmp written, synced, renamed, log removed), dropS S2, dropMd m1, create{S2}]; auto-compact (log threshold 1, compaction awaited inside the op) [create{S0,S2}, dropS S2]), split into 13 work items by op window (each item re-records the history and evaluates the cuts of its ops only). Thorough: one work item per op, compact with a second compaction (L1+L1 -> L2), auto-compact with 3 ops, reopen-drop, mid (threshold 40 bytes, 2 partitions), plus EVERY sequence of length 1..2 over the 8-op crash alphabet {create{S0},{S2},{S0..S3}, dropS S2, dropM m0, dropMd m0, reopen, compact} (cuts of the last op only). Per history every prefix of the syscall-level event list (P), every torn length 1..n-1 of the write in flight (T; quick: writes longer than 128 bytes, i.e. manifest and .tsi files, get {1..64, every 512th, last 64}; log-file writes are all shorter), and for the sync classes (*.tsl log files, MANIFEST*, *.tsi) the images with un-fsynced data dropped or its last write torn (U); directory operations in program order; images deduplicated by (content, acknowledged ops, op in flight). One evaluation = one (image, acknowledgement context) recovered in a fresh subprocess by CheckRecovery with compactions awaited: real SeriesFile.Open + Index.Open on the image, every metadata query; then the three probe ops (create all 6 series; engine delete of m0; of m1 — index-only drops for the shared history) with every query after each; then a second restart and every query again. Crash oracle: Open and every query succeed; with no op in flight the answers equal the view of the acknowledged live series; with an op in flight the answers equal the view before the op, after it, or after applying it to a subset of its series, or else every single answer lies between the live series before and after the op (its log entries are not written atomically); after each probe op and after the second restart the answers equal the model exactly. A stale item (\"extra\") is reported under the sequential part's signature (the registered by-design staleness of tsi1 matches it); a missing item, a failing open/query/op, a panic or a dead recovery process gets a crash/ signature (clause, stage, kind of op in flight, kind of file the cut lies in). Non-trivial crash case = at least one acknowledged live series or a create in flight.",
 		Assumptions: []string{
 			"series sets are read through tsdb.IndexSet (the reader every consumer of a shard's index uses), which removes ids the series file reports as deleted; the raw Index iterators are known to keep such ids by design (Case.Raw reads them for diagnosis only)",
@@ -2920,38 +3045,24 @@ func TestCheck(t *testing.T) {
 			"after every Index call in the auto/mid configurations the harness waits until no compaction is running or pending (sequential part: compaction only at step boundaries); explicit compaction is forced by lowering the partition's log threshold through a test-only setter (overlay export_verif_c14.go)",
 			"names, keys and values are compared as sets (a duplicate is reported as extra); order is not judged",
 			"schedule part: sequentially consistent interleavings at sync/atomic granularity of partition.go and log_file.go only (index.go, index_file.go, the series file keep the real sync package and run atomically between two points); queries are made at quiescence only (no reader thread), one writer",
-			"the tag-value series-id cache of the Index is warm (every step queries every tag value), as on a server that answers queries between writes",
+			"in all configurations but explicit-nocache the tag-value series-id cache of the Index is warm (every step queries every tag value), as on a server that answers queries between writes: there Index/IndexSet.TagValueSeriesIDIterator show what the cache says; what the files say is read at every step through the partitions' own iterators (cache bypassed) and, in explicit-nocache, through the Index itself",
+			"shared-readd families: only sequences without an immediately repeated op (a repeated create / compact / reopen changes nothing; a repeated index-only drop is in the shared-explicit family) and only the family's maximal length is enumerated — shorter sequences are covered as prefixes, judged after every step, but without the three probe ops of the final restart",
 			"crash family: ordered-metadata crash model (creates/renames/unlinks persist in program order; data of sync-class files may be lost back to the last fsync = U images; a write in flight may persist any byte prefix = T images); event order = syscall completion order (the series file writes its partitions from concurrent goroutines: a replay searches its own recording for the image by content)",
 			"crash family: the series-file segments are not a sync class here (their durability is C13's business): their data is never dropped, only cut by P/T images",
 			"crash family: the recovery checker waits for the compactions the restart itself starts before it reads or probes (quiescent index)",
-			"the small schedule part runs first (at most 20 s quick / 100 s thorough), then the crash family, which may use at most 30 s quick / 390 s thorough; beyond that each is capped (exhaustive:false), never an alarm",
+			"the re-add family of length 4 runs first (320 histories over the 16 workers, not limited), then the small schedule part (at most 20 s quick / 100 s thorough), then the crash family, which may use at most 30 s quick / 390 s thorough; beyond that each is capped (exhaustive:false), never an alarm",
 			"small schedule part: the due state of the active log file is produced by lowering the size threshold to 1 after the initial create (test-only setter of the overlay) instead of letting maxLogFileAge (4 h) pass; the periodic-compaction tick is played by a harness thread running the body of the ticker case of Partition.runPeriodicCompaction; sequentially consistent interleavings at Lock/RLock granularity of partition.go and log_file.go only; queries at quiescence only; writers only create series",
 		},
 		Run: func(c *vlib.Ctx) {
-			if o := os.Getenv("C14_ONLY"); o == "" || o == "small" {
-				share := 20 * time.Second
-				if c.Thorough() {
-					share = 100 * time.Second
-				}
-				if v := envInt("C14_SMALL_SHARE_S", 0); v > 0 { // development aid
-					share = time.Duration(v) * time.Second
-				}
-				runSmallSchedules(t, c, share) // small schedule part first: the smallest part, of fixed size, limited to its share
-				if o == "small" {
-					return
-				}
-			}
-			runCrash(c) // crash family next: of fixed size and limited to its share of the budget
-			if os.Getenv("C14_ONLY") == "crash" {
-				return
-			}
 			base := vlib.Scratch("c14-")
 			defer os.RemoveAll(base)
 			var idx int64
-			for _, fam := range families(c.Thorough()) {
-				fam := fam
+			runFamily := func(fam family) (complete bool) {
 				capped := false
 				forEachSeq(fam.alphabet, fam.minLen, fam.maxLen, func(ops []Op) bool {
+					if fam.noRepeat && hasRepeat(ops) {
+						return true
+					}
 					idx++
 					if !c.Mine(idx) {
 						return true
@@ -2971,6 +3082,9 @@ func TestCheck(t *testing.T) {
 					nt := false
 					for _, o := range ops {
 						nt = nt || o.Kind == OpCreate
+					}
+					if fam.readd() {
+						nt = rr.ReaddCompacted
 					}
 					if nt {
 						c.NontrivialN(1)
@@ -2998,12 +3112,53 @@ func TestCheck(t *testing.T) {
 						if fd.Step < len(ops) {
 							where = fmt.Sprintf("after step %d (%s)", fd.Step, ops[fd.Step])
 						}
-						c.Violation(fd.Sig, fmt.Sprintf("family %s, ops [%s], %s: %s", fam.name, opsString(ops), where, fd.Why), cs)
+						if fam.readd() && fd.Step < len(ops) {
+							// the class shows after a step of the history: the recorded case is the prefix up to that step
+							// (every shorter sequence is in the family's space as a prefix)
+							cs.Ops = ops[:fd.Step+1]
+						}
+						c.Violation(fd.Sig, fmt.Sprintf("family %s, ops [%s], %s: %s", fam.name, opsString(cs.Ops), where, fd.Why), cs)
+						cs.Ops = ops
 					}
 					return true
 				})
 				if capped {
+					if fam.readd() {
+						c.Cap(fmt.Sprintf("budget expired inside family %s (length exactly %d, %d-op alphabet); all earlier families of the list are complete", fam.name, fam.maxLen, len(fam.alphabet)))
+						return false
+					}
 					c.Cap(fmt.Sprintf("budget expired inside family %s (lengths %d..%d); all earlier families of the list are complete, this one for all shorter lengths", fam.name, fam.minLen, fam.maxLen))
+					return false
+				}
+				return true
+			}
+			fams := families(c.Thorough())
+			// the re-add family of length 4 (320 histories, about a second per shard) goes first of all: it is the smallest part
+			if o := os.Getenv("C14_ONLY"); (o == "" || o == "seq") && len(fams) > 0 && fams[0].readd() {
+				if !runFamily(fams[0]) {
+					return
+				}
+				fams = fams[1:]
+			}
+			if o := os.Getenv("C14_ONLY"); o == "" || o == "small" {
+				share := 20 * time.Second
+				if c.Thorough() {
+					share = 100 * time.Second
+				}
+				if v := envInt("C14_SMALL_SHARE_S", 0); v > 0 { // development aid
+					share = time.Duration(v) * time.Second
+				}
+				runSmallSchedules(t, c, share) // small schedule part next: of fixed size, limited to its share
+				if o == "small" {
+					return
+				}
+			}
+			runCrash(c) // crash family next: of fixed size and limited to its share of the budget
+			if os.Getenv("C14_ONLY") == "crash" {
+				return
+			}
+			for _, fam := range fams {
+				if !runFamily(fam) {
 					return
 				}
 			}
